@@ -197,6 +197,18 @@ theorem Accessory.cacheOk_setPrimary (a : Accessory V P) (typ : String) (h : a.C
   obtain ⟨sv, hsv, rfl⟩ := hsv'
   exact h sv hsv
 
+theorem Accessory.cacheOk_addLinked (a : Accessory V P) (svc other : Nat) (h : a.CacheOk) :
+    (a.addLinked svc other).CacheOk := by
+  intro sv' hsv'
+  simp only [Accessory.addLinked, List.mem_map] at hsv'
+  obtain ⟨sv, hsv, rfl⟩ := hsv'
+  have := h sv hsv
+  split
+  · split
+    · exact this
+    · exact this
+  · exact this
+
 /-! ### the read path keeps the invariant -/
 
 theorem Accessory.read_cacheOk (a : Accessory V P) (iid : Nat) (g : Option V) (h : a.CacheOk) :
@@ -268,6 +280,9 @@ theorem Db.step11_cacheOk (s : Db V P) (op : Op11 V P) (h : s.CacheOk) : (s.step
   | setValue o vres =>
     exact Db.cacheOk_modChar s o _ (fun c i hc => Char.cacheOk_setValue c vres i hc)
       (fun c => Char.obj_setValue c vres) h
+  | assignValue o v =>
+    exact Db.cacheOk_modChar s o _ (fun c i _ => Char.cacheOk_setVal c v i)
+      (fun c => Char.obj_setVal c v) h
   | clientUpdate o vres cb =>
     exact Db.cacheOk_modChar s o _ (fun c i hc => Char.cacheOk_clientUpdate c vres cb i hc)
       (fun c => Char.obj_clientUpdate c vres cb) h
@@ -284,6 +299,8 @@ theorem Db.step11_cacheOk (s : Db V P) (op : Op11 V P) (h : s.CacheOk) : (s.step
     exact Db.cacheOk_modAcc s aid _ (fun a ha => ha) h
   | setPrimary aid typ =>
     exact Db.cacheOk_modAcc s aid _ (fun a ha => Accessory.cacheOk_setPrimary a typ ha) h
+  | addLinked aid svc other =>
+    exact Db.cacheOk_modAcc s aid _ (fun a ha => Accessory.cacheOk_addLinked a svc other ha) h
   | readAll incl g =>
     have := (Db.renderCached_spec s incl g h).2
     simp only [Db.step11]
